@@ -134,7 +134,7 @@ def build_lib(flavour):
             os.unlink(r[2])
         shutil.rmtree(d, ignore_errors=True)
         os.rename(tmp, d)
-        _prune(libroot, flavour, 2)
+        _prune(libroot, flavour, 8)
         log("[build] lib %s in %.1fs" % (flavour, time.time() - t0))
     return d
 
